@@ -15,7 +15,8 @@ from . import common as C
 
 FUNCS = ['u_to_ubi', 'ubi_to_u', 'ubi_to_cell', 'ubi_to_u_b', 'ub_to_u_b', 'ubi_to_rod', 'u_to_rod', 'form_b_mat', 'a_to_cell']
 META = {
-    'explanation': 'Real u_to_ubi/ubi_to_u/ubi_to_cell/ubi_to_rod/ubi_to_u_b/ub_to_u_b executed on U=R(q) (unit quaternion, all of SO(3)), '
+    'explanation': 'History group: u_to_ubi/ubi_to_u on a cell, then on the cell with a.(1+dl), |dl|<=1e-4 symbolic - the second result must be that of the second cell (numpy.allclose with symbolic or angle-valued references is a formula). '
+                   'Real u_to_ubi/ubi_to_u/ubi_to_cell/ubi_to_rod/ubi_to_u_b/ub_to_u_b executed on U=R(q) (unit quaternion, all of SO(3)), '
                    'a symbolic cell and real hkl, input checks switched on.  ub_to_u_b: UB := U0.B0 with B0 an arbitrary upper-triangular matrix '
                    'with positive diagonal (any UB with det>0 by QR existence), numpy.linalg.qr replaced by its contract '
                    '(Q=U0.D, R=D.B0, D=diag(+-1) symbolic); the 8 sign patterns are explored as paths of the code\'s own `if B[i,i] < 0`.',
